@@ -177,6 +177,22 @@ def run(ctx):
         _x14.check_import_guard(ck, prog, config, 'C14-d')
         from . import c19 as _c19
         _c19.shared_scratch(ck, prog, config, 'C14-e', ('zck_get_chunk_data', 'zck_get_chunk_comp_data'), 'random access')
+        # ---- f  request history includes validity scans: they hand the context back with the descriptor at the data
+        #         section and the running data hash re-initialised (shared with C09-b)
+        from . import c09 as _c09
+        for name_ in _c09.SCANS:
+            fn_ = prog.need_func(name_)
+            rr_ = _c09.RestoreRule(prog, fn_)
+            run_rule(prog, fn_, rr_)
+            ck.require(rr_.exits >= 1, '%s has no non-error exit' % name_)
+            by_ = {}
+            for v_ in rr_.violations:
+                by_.setdefault(v_.inst, v_)
+            for inst_, text_ in (('offset', 'descriptor restored to data_offset on every non-error exit'),
+                                 ('hash-reinit', 'running data hash re-initialised on every non-error exit')):
+                v_ = by_.get(inst_)
+                ck.ob('C14-f', 'R6.restore', name_, inst_, v_ is None, text_ if v_ is None else v_.msg, fn_.file,
+                      v_.node.line if v_ else fn_.line, path=v_.path if v_ else None, config=config)
         cr = prog.need_func('comp_read')
         seen, ext = prog.reachable_calls([cr])
         fp = prog.fp_targets()
